@@ -71,6 +71,12 @@ def check(tier: str) -> Report:
     mc = run_tlc("BudgetMC.tla", mc_cfg, tag="bud-mc", timeout=3000)
     if not mc.ok:
         raise Machinery(f"spec-level counterexample in BudgetMC: {mc.violated}\n{mc.output[-2000:]}")
+    # symbolic: the window invariant is inductive for arbitrary integer max_retries, window and times
+    from .apalache import apalache_inductive
+    sym = apalache_inductive("BudgetInd", mutants={
+        "prune-keeps-boundary": ("Keep(e) == e > cutoff", "Keep(e) == e >= cutoff"),
+        **({"capacity-off-by-one": ("IF Len(q1) + cost > Max THEN 0 ELSE 1",
+                                    "IF Len(q1) + cost > Max + 1 THEN 0 ELSE 1")} if tier != "quick" else {})})
     ex = run_tlc("BudgetMC.tla", pick_cfg("BudgetMC_export", tier), tag="bud-exp", timeout=3000)
     if not ex.ok:
         raise Machinery(f"BudgetMC export violated {ex.violated}")
@@ -110,7 +116,7 @@ def check(tier: str) -> Report:
         "graph_replay_ops": g["n_ops"], "replay_mismatches": len(g["mismatches"]),
         "random_histories_tlc_validated": len(rand), "nonconformant_traces": nonconf,
         "trace_check_states": verdicts[0]["_states"] if verdicts else 0,
-        "exhaustive": True, "canary": "corrupted trace rejected",
+        "exhaustive": True, "canary": "corrupted trace rejected", "symbolic": sym,
         "samples": g["samples"][:2] + [{"cfg": rand[0]["cfg"], "ops": rand[0]["ev"][:12]}],
     })
     rep.assumptions += ["clock values are whole ticks of 2**-6 s", "monotonic clock never goes back",
